@@ -59,6 +59,11 @@ def k_inert(s: str) -> bool:
 N_HOW = 16
 
 
+class SubStr(str):
+    """a str subclass is still a plain string"""
+
+
+
 def build_emit(how: int, s):
     """One of the ways a plain string reaches the output; returns the rendered html."""
     if how == 0:
@@ -128,7 +133,9 @@ def h_numbers(how: int, n: int) -> bool:
     for f in (1.5, -0.0, 1e-05, float("inf"), float("nan"), 1e22):
         if Tag("i", f).get_html_string() != "<i>" + str(f) + "</i>":
             return False
-    return True
+    # str subclasses are plain strings too
+    from htmltools._jsx import jsx
+    return Tag("i", SubStr("a<b")).get_html_string() == "<i>a&lt;b</i>" and Tag("i", "x", jsx("1<2")).get_html_string() == "<i>\n  x1&lt;2\n</i>"
 
 
 _LONG = ["<b>&", "x" * 63 + "<", "y" * 64 + "&<>", ("ab<&>" * 13), "z" * 200 + "</div><script>", "é☃ & " * 40, "<" * 1100]
